@@ -58,7 +58,12 @@ def _gen_script(rng, res):
       T = t + d
       if res == 10 and T % 10 == 0:
         T += rng.choice([1, 3, 7])
-      ops.append(['S', nid, T])
+      if rng.random() < 0.12:
+        T = t - rng.choice([1100, 2500, 60000])          # long overdue when it is scheduled
+      if rng.random() < 0.2:
+        ops.append(['S', nid, T, rng.choice(['partial', 'obj']), 0])
+      else:
+        ops.append(['S', nid, T])
       live.append(nid)
     elif k < 0.6:
       ops.append(['C', rng.choice(live)])
@@ -101,6 +106,8 @@ def _gen_pattern(rng, res):
     n = rng.randint(2, 5)
     for _ in range(n):
       S(unit * rng.randint(2, 30))
+      if rng.random() < 0.4:
+        ops[-1] += [rng.choice(['partial', 'obj']), 0]
     if rng.random() < 0.5:
       ops.append(['adv', t + unit])
       t += unit
@@ -325,6 +332,14 @@ def run_case(script):
       elif how == 'raiseb':
         import gevent
         raise gevent.Timeout(0.001)        # a BaseException
+    if how == 'partial':
+      import functools
+      return functools.partial(run)          # a callable without __name__
+    if how == 'obj':
+      class _Callable(object):
+        def __call__(self_):
+          run()
+      return _Callable()
     return run
 
   for op in script['ops']:
